@@ -234,8 +234,13 @@ def run_one(profile_name: str, seed: int, ops: list | None = None,
         cfg = profile.swarm(rng)
     world = World(cfg)
     seams.install(world, cfg)
+    pristine = None
     try:
         profile.init_world(world)
+        if getattr(profile, "pristine_oracle", False):
+            from .pristine import PristineServer  # noqa: PLC0415
+            pristine = PristineServer()      # forked before any operation runs
+            world.extra["pristine"] = pristine
         monitors = [m(world) for m in profile.monitors]
         sched = None if ops is not None else profile.scheduler(world, rng)
         nsteps = cfg["steps"] if ops is None else len(ops)
@@ -304,6 +309,8 @@ def run_one(profile_name: str, seed: int, ops: list | None = None,
             res["events"] = events
         return res
     finally:
+        if pristine is not None:
+            pristine.close()
         seams.remove(world)
 
 
